@@ -348,8 +348,10 @@ class F09(Family):
             # unsynchronised package-level access inside any single accessor is in front of the race detector in every run;
             # otherwise a seeded sample of pairs, each twice with different priors and values
             for x in (by[kind] if wide else _pick(rng, by[kind], n * scale, lambda x: x["type"])):
+                usable = [g for g in x["groups"] if g["priors"] and g["values"]]
+                if not usable: raise Infra("MC_C09_gen printed no prior / value for %s.%s" % (x["type"], x["field"]))
                 for _ in range(1 if wide else 2):
-                    g = rng.choice(x["groups"])
+                    g = rng.choice(usable)
                     out.append(dict(x, groups=[dict(L=g["L"], priors=_pick(rng, g["priors"], 1 if wide else 3), values=_pick(rng, g["values"], 2 if wide else 3))]))
             rng.shuffle(out)
             blocks.append((kind, out))
@@ -363,12 +365,24 @@ class F09(Family):
 
     @staticmethod
     def registry(pkg):
-        """constructor registry generated from the list of type names (plumbing, as in the C09 check)"""
+        """constructor registry generated from the list of type names (plumbing, as in the C09 check).  For the concurrent
+        driver also one pair of plain closures per scalar accessor pair: a call through a reflect method value takes its
+        frame from a sync.Pool, which orders goroutines that share a processor in the eyes of the race detector."""
         tab = json.load(open(os.path.join(VERIF, "tables", "ie_fields.json")))
-        L = ['// generated at check time from tables/ie_fields.json (type names only): plumbing'] + (['//go:build c19ie', ''] if pkg != "main" else []) + \
+        L = ['// generated at check time from tables/ie_fields.json (type and accessor names only): plumbing'] + (['//go:build c19ie', ''] if pkg != "main" else []) + \
             ['package ' + pkg, '', 'import "github.com/free5gc/nas/nasType"', '', 'var Types = map[string]func() any{']
         L += ['\t"%s": func() any { return &nasType.%s{} },' % (t["type"], t["type"]) for t in tab["types"]]
-        return "\n".join(L + ['}']) + "\n"
+        L += ['}']
+        if pkg != "main":
+            L += ['', '// Direct: the scalar accessor pairs as plain calls', 'var Direct = map[string]Acc{']
+            for t in tab["types"]:
+                for f in t["fields"]:
+                    if f["gtype"] == f["stype"] and f["stype"] in ("uint8", "uint16"):
+                        w = f["stype"][4:]
+                        L.append('\t"%s.%s": {G%s: func(x any) %s { return x.(*nasType.%s).%s() }, S%s: func(x any, v %s) { x.(*nasType.%s).%s(v) }},' % (
+                            t["type"], f["name"], w, f["stype"], t["type"], f["get"], w, f["stype"], t["type"], f["set"]))
+            L += ['}']
+        return "\n".join(L) + "\n"
 
 
 def families(with_sec=True, with_ie=True):
